@@ -3,11 +3,15 @@ EXTENDS KVStack, Json
 \* key universe for C03/C04: "a" < "ab" < "b"  (1 = 'a', 2 = 'b')
 KeySeq3 == << <<1>>, <<1, 2>>, <<2>> >>
 \* key universe for C44: contracts A=<<1>>, B=<<2>>; storage keys "", "a", "ab" under each
-KeySeqC == << <<1>>, <<1, 1>>, <<1, 1, 2>>, <<2>>, <<2, 1>>, <<2, 1, 2>> >>
+KeySeqC == << <<1>>, <<1, 1>>, <<1, 2>>, <<2>>, <<2, 1>>, <<2, 2>> >>
 ContractsC == { <<1>>, <<2>> }
 NoContracts == {}
 Vals1 == {"x"}
 Vals2 == {"x", "y"}
+\* values of different lengths: the memdb keeps records in an append-only buffer, so overwriting with a
+\* longer/shorter value takes different code paths than a same-size overwrite
+Vals3 == {"x", "yyyy", "zzzzzzz"}
+ValsL == {"x", "yyyy"}
 ActsC04 == {"CachePut", "CacheDelete", "CacheCommit", "CacheReset", "OvlCommit"}
 ActsC03 == {"OvlPut", "OvlDelete"}
 ActsC44 == {"ContractPut", "CacheCommit", "CacheReset", "OvlCommit", "Migrate", "Destroy", "Deploy", "DeployRefused"}
